@@ -44,6 +44,8 @@ func checkC08(p *Prog, r *Report) {
 	reportedListRule(p, r, "R15", subMgr, "SubscriptionManagementEntryDataType", "SubscriptionId")
 	r.Rule("R16", "the outcome of AddSubscription/RemoveSubscription is the outcome of the node-management handler: a refused request (a delete of a pair that is not subscribed) is answered with an error")
 	outcomeForwardedRule(p, r, "R16", subMgr)
+	deepCopyRule(p, r, "R17", subMgr)
+	featureTypeKept(p, r, "R18")
 	r.Rule("R12", "the subscription list is never used as the backing array of another list (a query that filters into registry[:0] overwrites the registry)")
 	noStrayCompaction(p, ls, r, "R12", map[string]bool{"SubscriptionManager": true})
 	r.Assumes("reflect.DeepEqual and the address getters are not interpreted",
